@@ -2006,8 +2006,7 @@ def hashset_new(m, a, c):
 
 
 def _tuple_eq(x, y):
-    x, y = deref(x), deref(y)
-    return b_and(*[val_eq(p, q) for p, q in zip(x.f, y.f)])
+    return val_eq(x, y)
 
 
 @model("HashSet::contains")
@@ -2430,14 +2429,22 @@ def g_next(m, a, c):
 @model("*::collect")
 def g_collect(m, a, c):
     _need_iter(a, c)
-    if "Vec" not in c:
-        raise Unsupported("collect into %s" % c)
+    tgt = c.rsplit("collect::<", 1)[-1] if "collect::<" in c else c
     items = []
     while True:
         x = pull(m, a[0])
         if x is None:
-            return VecM(items)
+            break
         items.append(x)
+    if tgt.startswith(("HashSet", "std::collections::HashSet", "BTreeSet")):
+        st_ = SetM()
+        for x in items:
+            if not any(m.branch_bool(val_eq(y, x), "collect into set") for y in st_.items):
+                st_.items.append(x)
+        return st_
+    if "Vec" not in tgt and "Vec" not in c:
+        raise Unsupported("collect into %s" % c)
+    return VecM(items)
 
 
 # FilterM over the older Iter-only model
